@@ -25,6 +25,7 @@ package pointer
 //@   pure
 
 //@ func analysis.genInvoke
+//@   loops 1
 //@   property C12
 //@   option havoc:*
 //@   ghost k int
@@ -37,6 +38,7 @@ package pointer
 // 1 + poff(k) of the P/R block of every function the value may point to (offset 0 is
 // the function's identity node).
 //@ func analysis.genDynamicCall
+//@   loops 1
 //@   property C12
 //@   option havoc:*
 //@   ghost k int
@@ -49,6 +51,7 @@ package pointer
 // the widths before it, in the params block of the callee's function object.
 //@ macro recvW() = ite(call.Signature().Recv() != nil, a.sizeof(call.Signature().Recv().Type()), 0)
 //@ func analysis.genStaticCall
+//@   loops 1
 //@   property C12
 //@   option havoc:*
 //@   ghost k int
